@@ -56,6 +56,20 @@ TP_CTORS = [
     {"year": 2000, "hour_of_day": 24},
     {"year": 1, "time_zone_hour": 0, "time_zone_minute": -45},
 ]
+# truncated points built directly: their zone is *unknown* (the parsers give
+# truncated points the local zone unless told to default to unknown)
+TRUNC_CTORS = [
+    {"truncated": True, "hour_of_day": 6, "minute_of_hour": 30},
+    {"truncated": True, "hour_of_day": 6},
+    {"truncated": True, "day_of_month": 15},
+    {"truncated": True, "minute_of_hour": 30},
+    {"truncated": True, "hour_of_day": 12, "time_zone_hour": 5},
+    {"truncated": True, "day_of_week": 3},
+    {"truncated": True, "truncated_property": "year_of_decade", "year": 7,
+     "month_of_year": 3},
+    {"truncated": True, "hour_of_day": 18, "minute_of_hour": 45,
+     "truncated_dump_format": "Thhmm"},
+]
 DUR_SEEDS = ["P1D", "PT1H", "P1W", "P2W", "P1M", "P1Y", "P1Y2M3DT4H5M6S",
              "PT0,5H", "PT36H", "-P1D", "-P1M", "P0Y", "PT1M30S", "P400D",
              "P10Y", "PT1.5S", "-PT90M", "P7D", "P30D", "P0001-02-03T04:05:06"]
@@ -170,9 +184,14 @@ class Gen(object):
             self.meta[sid] = {"type": "tp", "year": year, "safe": safe,
                               "trunc": False, "h24": "T24" in text}
         elif kind == "trunc":
-            text = rng.choice(TRUNC_SEEDS)
-            self.steps.append({"k": "mk", "id": sid, "t": "tp", "text": text,
-                               "parser": "trunc"})
+            if rng.random() < 0.4:
+                self.steps.append({"k": "mk", "id": sid, "t": "tp",
+                                   "kw": rng.choice(TRUNC_CTORS)})
+            else:
+                self.steps.append({"k": "mk", "id": sid, "t": "tp",
+                                   "text": rng.choice(TRUNC_SEEDS),
+                                   "parser": rng.choice(
+                                       ["trunc", "trunc", "trunc_unknown"])})
             self.meta[sid] = {"type": "tp", "year": 2000, "safe": False,
                               "trunc": True}
         elif kind == "tpctor":
@@ -600,6 +619,14 @@ class Sim(object):
         self.order.append(name)
         self.snaps[name] = snap(value)
         self.obs[name] = observe(value)
+        after = snap(value)
+        if after != self.snaps[name]:
+            # str() / hash() of the new value changed it: they are public
+            # operations too
+            self.violate("mutated", "str_hash", len(self.results),
+                         victim=name, victim_is_operand=True,
+                         before=self.snaps[name], after=after)
+            self.snaps[name] = after
         mine = sub_objects(value)
         for oname in operands:
             other = self.pool.get(oname)
@@ -808,6 +835,8 @@ class Sim(object):
             "std": parsers.TimePointParser(),
             "asparsed": parsers.TimePointParser(),
             "trunc": parsers.TimePointParser(allow_truncated=True),
+            "trunc_unknown": parsers.TimePointParser(
+                allow_truncated=True, default_to_unknown_time_zone=True),
             "unknown_tz": parsers.TimePointParser(
                 default_to_unknown_time_zone=True)}
         self.dparser = parsers.DurationParser()
